@@ -41,8 +41,10 @@ func shaHex(b []byte) string {
 	return "sha256:" + hex.EncodeToString(s[:])
 }
 
-func (r *fakeReg) putBlob(b []byte)                { r.blobs[shaHex(b)] = append([]byte(nil), b...) }
-func (r *fakeReg) putManifest(mt string, b []byte) { r.manifests[shaHex(b)] = regManifest{mt, append([]byte(nil), b...)} }
+func (r *fakeReg) putBlob(b []byte) { r.blobs[shaHex(b)] = append([]byte(nil), b...) }
+func (r *fakeReg) putManifest(mt string, b []byte) {
+	r.manifests[shaHex(b)] = regManifest{mt, append([]byte(nil), b...)}
+}
 
 func (r *fakeReg) resp(req *http.Request, code int, hdr map[string]string, body []byte) (*http.Response, error) {
 	h := http.Header{}
